@@ -21,7 +21,7 @@ pub const REQUIRED: &[&str] = &[
     "class.finite_wildcard", "class.threshold<=min_score", "class.threshold=-inf", "class.threshold_at_a_score",
     "class.all_positions_hit", "dispatch_forced.generic", "dispatch_forced.sse2", "dispatch_forced.avx2",
     "class.history", "class.history.threshold_lowered", "class.history.threshold_raised",
-    "class.history.block_size_changed_after_blocks_scored", "class.history.hits_yielded",
+    "class.history.block_size_changed_after_blocks_scored", "class.history.hits_yielded", "class.rows>65536",
 ];
 
 pub struct ScanInput {
@@ -127,6 +127,18 @@ pub fn make_scan_input(rng: &mut Rng, l: usize, m: usize, near_ties: bool) -> Sc
     let pssm = scoring::<Dna>(&rows);
     let enc = encoded::<Dna>(&seq);
     let mut striped: StripedSequence<Dna, U32> = stripe_generic(&enc);
+    // the sequence may have served other motifs before: look-ahead rows built in one or two
+    // earlier, shorter configurations, or more of them than this motif needs
+    match rng.below(4) {
+        0 if m >= 3 => {
+            striped.configure_wrap(rng.range(1, m - 2));
+            if m >= 5 && rng.chance(0.5) {
+                striped.configure_wrap(rng.range((m - 1) / 2, m - 2));
+            }
+        }
+        1 => striped.configure_wrap(m - 1 + rng.range(1, 20)),
+        _ => {}
+    }
     striped.configure(&pssm);
     let r_rows = striped.matrix().rows() - striped.wrap();
     let dm = pssm.to_discrete();
@@ -258,6 +270,20 @@ pub fn generic_family(arm: Arm) -> bool {
 }
 
 fn scan_case(case: u64, rng: &mut Rng, rep: &mut Report) {
+    if case == 0 {
+        // more than 65536 striped rows scanned in one block (and in blocks of 65536 / 65537 rows)
+        let m = rng.range(4, 8);
+        let l = 65536 * 32 + 32 * rng.range(1, 3) + rng.below(32);
+        let inp = make_scan_input(rng, l, m, false);
+        rep.cover("class.rows>65536");
+        let mut v: Vec<f64> = inp.exact.iter().map(|e| e.0).filter(|x| x.is_finite()).collect();
+        v.sort_by(|a, b| b.partial_cmp(a).unwrap());
+        for (i, &b) in [usize::MAX, 65537, 65536].iter().enumerate() {
+            let t = if v.len() > 2000 { (v[200 + 300 * i] - 1e-3) as f32 } else { 0.0 };
+            one_scan(case, rep, &inp, [Arm::DispAuto, Arm::DispAvx2, Arm::DispAuto][i], t, b);
+        }
+        return;
+    }
     let m = *rng.pick(&SCAN_WIDTHS);
     let b_hint = *rng.pick(&[1usize, 2, 3, 5, 8, 16, 31, 32, 33, 64]);
     let l = pick_lengths(rng, m, b_hint);
